@@ -18,10 +18,16 @@
                                       blocks (clause 1 of the property),
      - C20_block_count_bounds         and MinBlockCount <= #blocks <= MaxBlockCount throughout.
    (reachL: reach with pools created with MinBlockCount >= 0; reachL_reach : reachL c v -> reach c v.)
-   OPEN (not yet covered here): the analogue of destroy_clean for Pool.Destroy, and the steps of a
-   defragmentation run (Vam.dstep). *)
+     - C20_pool_destroy_clean         a successful Pool.Destroy unlinks the pool, leaves NO device memory object of any
+                                      of its blocks on the device, keeps every other block list and every Allocation
+                                      object as they were, and all allocator invariants still hold.
+     - C20_retention_bound_defrag /   the retention bound and the block count bounds also hold in every state of a history
+       C20_block_count_bounds_defrag  that contains defragmentation runs (reachDL: ordinary calls between passes, pools with
+                                      MinBlockCount >= 0, BeginDefragPass on granularity-1 lists): a pass creates no
+                                      block, completing a move frees through memoryBlockList.Free with its retention
+                                      policy, everything else keeps used blocks used. *)
 From Coq Require Import ZArith List Lia.
-From Arsenal Require Import VamDev VamBlockList Vam VamInvMeta VamInv VamInvThm VamProps VamShape VamShapeStep.
+From Arsenal Require Import VamDev VamBlockList Vam VamInvMeta VamInv VamInvStep VamInvThm VamProps VamPoolProps VamShape VamShapeStep VamDefragThm VamDefragShape.
 From Arsenal Require Bits VamAcctThm VamAcctProps.
 Import ListNotations.
 Open Scope Z_scope.
@@ -78,6 +84,25 @@ Theorem C20_destroy_never_fails : forall c v,
   exists v', allocator_destroy c v = (v', OK tt).
 Proof. intros c v Ha. exact (VamAcctProps.destroy_never_fails c Ha v). Qed.
 Print Assumptions C20_destroy_never_fails.
+
+Theorem C20_pool_destroy_clean : forall c v uid v',
+  cfg_ok c -> reach c v -> pool_destroy c v uid = (v', OK tt) ->
+  VamInv c v' /\ tab_frame v v' [] /\
+  find_pool (v_pools v') uid = None /\ get_blist v' (LPool uid) = None /\
+  (forall lr, lr <> LPool uid -> get_blist v' lr = get_blist v lr) /\
+  (forall l b, get_blist v (LPool uid) = Some l -> In b (bl_blocks l) -> find_mem (m_mems (v_m v')) (bk_mem b) = None).
+Proof. intros c v uid v' Hc R. apply pool_destroy_clean; auto. apply reach_inv; auto. Qed.
+Print Assumptions C20_pool_destroy_clean.
+
+Theorem C20_retention_bound_defrag : forall c v run lr l,
+  cfg_ok c -> reachDL c v run -> get_blist v lr = Some l -> cnt_empty (bl_blocks l) <= Z.max 1 (bl_min l).
+Proof. intros c v run lr l Hc. apply retention_bound_defrag; auto. Qed.
+Print Assumptions C20_retention_bound_defrag.
+
+Theorem C20_block_count_bounds_defrag : forall c v run lr l,
+  cfg_ok c -> reachDL c v run -> get_blist v lr = Some l -> bl_min l <= zlen (bl_blocks l) <= bl_max l.
+Proof. intros c v run lr l Hc. apply pool_block_bounds_defrag; auto. Qed.
+Print Assumptions C20_block_count_bounds_defrag.
 
 (* non-vacuity: one 1 MiB heap, two types; a block allocation and a dedicated one; Destroy is refused and changes
    nothing; after freeing both, Destroy succeeds and the device holds no memory object *)
